@@ -26,12 +26,30 @@ instead of being carried out - inside lock() the attempt then ends with that
 error and counts for nothing, inside the holder's unlock() the holder still
 holds and calls unlock() again until a call that met no injected error either
 releases or is a violation; a holder may release through another lock object
-for the same path.  The trace names link contents abstractly (a pid of the
+for the same path, or take the lock through a handle it drops at once.  Family
+"procs": the process table knows more than running/gone - a process that ends
+(as holder, or by exiting after its last round) may stay unreaped for a few
+kill() probes (kill succeeds, nothing says that lock can be broken yet; the
+liveness budgets start once it is reaped), a RUNNING process may have ended its
+initial thread, and a simulated /proc (served to the module through its open()
+and os.path/os.listdir) shows both the way Linux does (leader state Z).  Family
+"names": the one lock has several spellings (bytes, '..', a directory symlink,
+relative to the working directory) resolved by the link table; every handle a
+process opens draws its spelling, and processes ask isLocked() while holding and
+while not holding.  Every run re-executes the lockfile module first and keeps
+the cycle collector off until its end, so neither module-level state nor a
+handle's finaliser can act inside another run or at a moment no tape decides.  The trace names link contents abstractly (a pid of the
 simulation or one fixed word), so a run is replayable whatever identity the
 code under test writes.
 """
+import builtins
 import copy
 import errno
+import gc
+import importlib
+import io
+import os as _real_os
+import posixpath
 
 from twisted.internet import defer
 from twisted.python import lockfile
@@ -48,12 +66,18 @@ BATCH = 60
 COMPONENTS = {"real": ["twisted.python.lockfile.FilesystemLock.lock/unlock", "twisted.python.lockfile.isLocked",
                        "twisted.internet.defer.DeferredFilesystemLock.deferUntilLocked (polling waiter, no timeout)"],
               "stub": ["symlink/readlink/remove/kill/getpid (in-memory link + process tables, atomic per call; optional injected EIO/EACCES/EPERM)", "process scheduling (baton threads, tape-chosen)",
+                       "the module's view of the OS beyond those calls: open() of /proc/<pid>/{stat,status,comm,cmdline,task/..} and os.path.exists/lexists/isdir/islink/abspath/realpath/samefile, os.listdir, "
+                       "os.getcwd, os.kill/readlink/symlink/remove answer from the simulated process table, directory tree (one directory symlink, cwd /locks) and link table",
                        "each polling waiter's IReactorTime (detsim SimClock, advanced one interval per poll)"]}
 RULE = ("run = 2..4 simulated processes each doing 1..3 rounds of lock -> critical section -> unlock on one path, interleaved at every intercepted call; "
         "optional initial stale link, optional death of a holder inside its critical section, optional fork of a holder whose child calls unlock() on the inherited lock object "
         "and then, in half of the cases, contends for the lock with that object; optional transient OS errors (1..3 per run, each intercepted call of a lock() or unlock() fails with p=0.2 "
         "with EIO/EACCES, kill with EPERM, instead of being carried out): a lock() ended by one is an attempt without answer, a holder whose unlock() met one still holds and calls unlock() "
-        "again (other processes run in between); optionally a holder releases through another FilesystemLock object for the same path; "
+        "again (other processes run in between); optionally a holder releases through another FilesystemLock object for the same path, and a bounded waiter may take the lock through a handle "
+        "it drops as soon as lock() answered; family 'procs': a process that ends (death as holder, exit after its last round, end of a forked child) stays unreaped with p=0.5 for 1..3 kill() probes "
+        "(kill succeeds on it), a running process has ended its initial thread with p=0.4, and the simulated /proc shows leader state Z for both, S/R otherwise; "
+        "family 'names': every handle (the process's own object, the other object it releases through, isLocked probes, the late contender) draws one of 6 spellings of the lock's path "
+        "(str/bytes, 'sub/..', through a directory symlink, relative to the cwd), holders ask isLocked() inside the critical section (p=0.4), non-holders before a round (p=0.3); "
         "each process reuses one lock object for every attempt; in runs with holder deaths each process draws how it waits: bounded (6 attempts per round), persistent (lock() until it succeeds) "
         "or deferred (DeferredFilesystemLock.deferUntilLocked() polling once per interval on its own simulated clock), so that an owner can die between two attempts of the same waiter; "
         "after the run the survivors come back alone one by one (tape-chosen order) with their used objects, then a fresh contender; "
@@ -61,7 +85,13 @@ RULE = ("run = 2..4 simulated processes each doing 1..3 rounds of lock -> critic
 ASSUMPTIONS = ["symlink() is atomic create-or-EEXIST; readlink/remove/kill are atomic individually", "pids are not reused during a run",
                "'eventually' is read in bounded form: 3 attempts in a row of one waiter against a stale link nobody else touched, 3 attempts of a waiter that is the only process left, "
                "1 attempt of a process that comes back alone after the run; a run that uses up its 20000-step budget gives no verdict (the statement does not bound contention)",
-               "a process that dies does so inside its critical section (never in the middle of lock()/unlock())",
+               "a process that dies does so inside its critical section (never in the middle of lock()/unlock()); a process that exits does so after its last unlock()",
+               "a dead process that has not been reaped answers kill(pid, 0) like a running one and is reaped after at most 3 such probes (and before the survivors return after the run): "
+               "'eventually' presupposes that the OS eventually reports the owner as gone; while it does not, lock() may answer either way and no liveness budget runs. "
+               "A link that names the pid of a RUNNING process (pid reuse, in particular a leftover naming the contender's own pid) is outside the statement: no contender can tell it from a held lock",
+               "a running process whose initial thread has ended is a running process (kill succeeds, /proc/<pid>/stat shows Z for the thread-group leader, /proc/<pid>/task/<other tid>/stat shows S)",
+               "the lock is ONE file however it is spelled; isLocked() answering False means its lock() succeeded: that may not happen while ANOTHER process holds (what a probe does to the asking "
+               "process's own tenure is judged by that holder's next steps: nobody else may acquire, its unlock() must succeed); no OS error is injected into isLocked() (nobody could retry its unlock)",
                "an injected OS error replaces the call (nothing is created or removed by a call that fails); lock() calls made from a timer (deferUntilLocked) are never faulted - "
                "what the reactor does with an exception from a timed call is outside the statement; lock attempts ended by an injected error count for no liveness budget",
                "'a holder can always release it' is read per process, as unlock() documents it (ValueError only for a lock 'not owned by this process'): the holder's unlock() call that meets "
@@ -69,6 +99,33 @@ ASSUMPTIONS = ["symlink() is atomic create-or-EEXIST; readlink/remove/kill are a
                "all simulated processes share the one imported lockfile module (as processes forked from a common parent after the import do)"]
 
 NAME = "/locks/the.lock"
+CWD = "/locks"                       # every simulated process runs with this working directory
+DIRS = {"/", "/locks", "/locks/sub", "/proc"}
+DIRLINKS = {"/var-locks": "/locks"}  # a directory reachable by a second name (as /var/run -> /run)
+# the spellings under which a process may name the ONE lock (index 0 = the canonical name, the simplest choice)
+SPELLINGS = [NAME, b"/locks/the.lock", "/locks/sub/../the.lock", "/var-locks/the.lock", "the.lock", b"/var-locks/./the.lock"]
+COMMS = ["python3", "twistd", "my worker", "a) S (b"]  # command names as /proc shows them (spaces and parentheses are legal)
+
+
+def canon(filename):
+    """The file a spelling names in the simulated tree: relative names start at CWD, '.' and '..' are walked physically,
+    a directory symlink is followed where it is met."""
+    p = _real_os.fsdecode(filename)
+    if not p.startswith("/"):
+        p = CWD + "/" + p
+    parts = []
+    for seg in p.split("/"):
+        if seg in ("", "."):
+            continue
+        if seg == "..":
+            if parts:
+                parts.pop()
+            continue
+        parts.append(seg)
+        here = "/" + "/".join(parts)
+        if here in DIRLINKS:
+            parts = [x for x in DIRLINKS[here].split("/") if x]
+    return "/" + "/".join(parts)
 
 
 class World:
@@ -92,6 +149,16 @@ class World:
         self.oserr_left = 0
         self.oserr_exempt = set()  # pids whose lock() calls are never faulted (waiters polling from a timer)
         self.injected = {}
+        # process table beyond running/gone (family "procs"): zombies[pid] = number of kill(pid, 0) probes still answered
+        # with success before the parent reaps the dead process (a dead, unreaped process answers kill like a live one);
+        # mtx = RUNNING processes whose initial thread has ended (the rest of their threads go on): /proc shows the
+        # thread-group leader of such a process as Z although the process lives; comm[pid] = its command name in /proc
+        self.zombies = {}
+        self.mtx = set()
+        self.comm = {}
+        self.holders = []          # the scenario's list of current holders (read at every successful symlink)
+        self.created_over = {}     # pid -> the OTHER processes that held the lock when pid's latest symlink() succeeded
+        self.probing = set()       # pids inside isLocked(): never faulted (its internal unlock has nobody to retry it)
 
     def pname(self, v):
         """Abstract name of whatever a link names: a pid of the simulation, or a fixed word for anything else (a value
@@ -107,7 +174,7 @@ class World:
             return
         me = self.pid()
         inside = "lock" if me in self.in_lock else "unlock"
-        if inside == "lock" and me in self.oserr_exempt:
+        if (inside == "lock" and me in self.oserr_exempt) or me in self.probing:
             return
         if not self.sim.draw_bool(0.2, "oserr"):
             return
@@ -119,9 +186,96 @@ class World:
         raise OSError(en, "injected " + errno.errorcode[en])
 
     def stale_owner(self):
-        """The dead pid the link names, or None (no link / owner running)."""
+        """The dead AND REAPED pid the link names (kill reports ESRCH for it), or None (no link / owner running / owner
+        dead but not reaped yet: nobody can tell that one from a running process with kill)."""
         v = self.links.get(NAME)
-        return int(v) if v is not None and int(v) not in self.alive else None
+        return int(v) if v is not None and int(v) not in self.alive and int(v) not in self.zombies else None
+
+    def unreaped_owner(self):
+        v = self.links.get(NAME)
+        return v is not None and int(v) in self.zombies
+
+    def leaves(self, pid, unreaped_for=0):
+        """Process pid is no longer running; unreaped_for > 0: it stays in the process table that many kill() probes."""
+        self.alive.discard(pid)
+        self.mtx.discard(pid)
+        if unreaped_for > 0:
+            self.zombies[pid] = unreaped_for
+            self.sim.fault("process_ended_unreaped")
+
+    def reap(self, pid):
+        if self.zombies.pop(pid, None) is not None:
+            self.sim.probe("unreaped_process_reaped")
+            self.sim.event("REAPED", self.pname(pid))
+
+    # the simulated /proc (whatever the code under test asks the OS about a pid must be about the simulated process table)
+    def procfs(self, path):
+        """bytes of the /proc file `path` (canonical), FileNotFoundError for what does not exist."""
+        seg = path.split("/")[2:]
+        if seg and seg[0] == "self":
+            seg[0] = str(self.pid())
+        try:
+            pid = int(seg[0])
+        except (IndexError, ValueError):
+            raise FileNotFoundError(errno.ENOENT, "No such file or directory", path)
+        if pid not in self.alive and pid not in self.zombies:
+            self.esrch[self.pid()] = pid  # the caller has been told that pid is gone, as by kill's ESRCH
+            raise FileNotFoundError(errno.ENOENT, "No such file or directory", path)
+        comm = self.comm.get(pid, "python3")
+        dead = pid in self.zombies
+        leader = "Z" if dead or pid in self.mtx else ("R" if pid == self.pid() else "S")
+        nthreads = 2 if pid in self.mtx else 1
+        rest = seg[1:]
+        tids = [pid] + ([pid + 1000] if pid in self.mtx else [])
+        if len(rest) >= 2 and rest[0] == "task":
+            # per-thread view: /proc/<pid>/task/<tid>/<file>
+            try:
+                tid = int(rest[1])
+            except ValueError:
+                tid = None
+            if tid not in tids:
+                raise FileNotFoundError(errno.ENOENT, "No such file or directory", path)
+            if tid != pid:
+                leader = "S"
+            rest = rest[2:]
+        self.sim.event(self.pid(), "procfs", "/".join(rest) or "dir", self.pname(pid), leader)
+        if rest == ["stat"]:
+            f = [0] * 49
+            f[0], f[4], f[16] = 1, -1, nthreads  # ppid ... num_threads (fields 4.. of proc(5))
+            return ("%d (%s) %s %s\n" % (pid, comm, leader, " ".join(map(str, f)))).encode()
+        if rest == ["status"]:
+            word = {"Z": "zombie", "R": "running", "S": "sleeping"}[leader]
+            return ("Name:\t%s\nState:\t%s (%s)\nTgid:\t%d\nPid:\t%d\nPPid:\t1\nThreads:\t%d\n" % (comm, leader, word, pid, pid, nthreads)).encode()
+        if rest == ["comm"]:
+            return (comm + "\n").encode()
+        if rest == ["cmdline"]:
+            return b"" if dead else comm.encode() + b"\0"
+        if rest in ([], ["task"]):
+            raise IsADirectoryError(errno.EISDIR, "Is a directory", path)
+        raise FileNotFoundError(errno.ENOENT, "No such file or directory", path)
+
+    def open(self, file, mode="r", *a, **kw):
+        if isinstance(file, (str, bytes)) and canon(file).startswith("/proc/"):
+            self.sched.point("procfs")
+            data = self.procfs(canon(file))
+            return io.BytesIO(data) if "b" in mode else io.StringIO(data.decode())
+        return builtins.open(file, mode, *a, **kw)
+
+    def exists(self, path, follow=True):
+        c = canon(path)
+        if c in self.links:
+            return not follow  # the lock link points at a pid, i.e. nowhere
+        if c in DIRS or (not follow and posixpath.normpath(posixpath.join(CWD, _real_os.fsdecode(path))) in DIRLINKS):
+            return True
+        if c.startswith("/proc/"):
+            try:
+                self.procfs(c)
+            except IsADirectoryError:
+                return True
+            except OSError:
+                return False
+            return True
+        return False
 
     def pid(self):
         t = self.sched.me()
@@ -131,17 +285,20 @@ class World:
     def symlink(self, value, filename):
         self.sched.point("symlink")
         self.maybe_fault("symlink")
+        filename = canon(filename)
         if filename in self.links:
             self.eexist += 1
             self.sim.event(self.pid(), "symlink", "EEXIST")
             raise OSError(errno.EEXIST, "File exists")
         self.links[filename] = value
         self.link_gen += 1
+        self.created_over[self.pid()] = [h for h in self.holders if h != self.pid()]
         self.sim.event(self.pid(), "symlink", "ok")
 
     def readlink(self, filename):
         self.sched.point("readlink")
         self.maybe_fault("readlink")
+        filename = canon(filename)
         if filename not in self.links:
             self.sim.event(self.pid(), "readlink", "ENOENT")
             raise OSError(errno.ENOENT, "No such file or directory")
@@ -151,12 +308,13 @@ class World:
     def rmlink(self, filename):
         self.sched.point("rmlink")
         self.maybe_fault("rmlink")
+        filename = canon(filename)
         if filename not in self.links:
             self.sim.event(self.pid(), "rmlink", "ENOENT")
             raise OSError(errno.ENOENT, "No such file or directory")
         owner = int(self.links[filename])
         me = self.pid()
-        if me in self.in_lock:
+        if me in self.in_lock and owner != me:
             if owner in self.alive and self.esrch.get(me) not in (None, owner) and self.esrch[me] not in self.alive:
                 # TOCTOU: the breaker's kill(0) check was about a previous, dead owner whose
                 # link another breaker has meanwhile replaced with its own (the listed known finding)
@@ -165,6 +323,8 @@ class World:
                 self.sim.event(me, "rmlink", "REMOVES-LIVE-LINK-OF", self.pname(owner))
             elif owner in self.alive:
                 self.sim.event(me, "rmlink", "removes-live-link-without-stale-check", self.pname(owner))
+            elif owner in self.zombies:
+                self.sim.event(me, "rmlink", "dead-unreaped", self.pname(owner))
             else:
                 self.broke_stale += 1
                 self.sim.probe("stale_lock_broken")
@@ -180,6 +340,16 @@ class World:
     def kill(self, pid, sig):
         self.sched.point("kill")
         self.maybe_fault("kill")
+        if pid in self.zombies:
+            # dead but not reaped: the signal is "delivered"; the parent reaps it after a few such probes
+            self.sim.probe("unreaped_owner_probed")
+            self.sim.event(self.pid(), "kill", self.pname(pid), "unreaped")
+            self.zombies[pid] -= 1
+            if self.zombies[pid] <= 0:
+                self.reap(pid)
+            return
+        if pid in self.mtx:
+            self.sim.probe("running_owner_with_ended_initial_thread_probed")
         if pid not in self.alive:
             self.esrch[self.pid()] = pid
             self.sim.event(self.pid(), "kill", self.pname(pid), "ESRCH")
@@ -188,16 +358,70 @@ class World:
         self.sim.event(self.pid(), "kill", self.pname(pid), "alive")
 
 
-class _OS:
+class _Path:
+    """os.path as the simulated processes see it (the simulated tree for what it contains, lexical functions as they are)."""
     def __init__(self, world):
         self._w = world
+
+    def abspath(self, p):
+        cwd = CWD.encode() if isinstance(p, bytes) else CWD
+        return posixpath.normpath(posixpath.join(cwd, _real_os.fspath(p)))
+
+    def realpath(self, p, **kw):
+        c = canon(p)
+        return c.encode() if isinstance(_real_os.fspath(p), bytes) else c
+
+    def exists(self, p):
+        return self._w.exists(p)
+
+    def lexists(self, p):
+        return self._w.exists(p, follow=False)
+
+    def islink(self, p):
+        return canon(p) in self._w.links or self.abspath(_real_os.fsdecode(p)) in DIRLINKS
+
+    def isdir(self, p):
+        c = canon(p)
+        return c in DIRS or (c.startswith("/proc/") and c.count("/") == 2 and self._w.exists(p))
+
+    def samefile(self, a, b):
+        return canon(a) == canon(b)
+
+    def __getattr__(self, n):
+        return getattr(posixpath, n)
+
+
+class _OS:
+    """The os module as the simulated processes see it: identity, working directory, the process table and the lock's
+    directory come from the simulation, everything else is the real module."""
+    def __init__(self, world):
+        self._w = world
+        self.path = _Path(world)
+        self.kill, self.symlink, self.readlink = world.kill, world.symlink, world.readlink
+        self.remove = self.unlink = world.rmlink
 
     def getpid(self):
         return self._w.pid()
 
+    def getppid(self):
+        return 1
+
+    def getcwd(self):
+        return CWD
+
+    def getcwdb(self):
+        return CWD.encode()
+
+    def listdir(self, p="."):
+        c = canon(p)
+        if c == "/proc":
+            return [str(x) for x in sorted(self._w.alive | set(self._w.zombies))]
+        if c == "/locks":
+            return ["sub"] + [k.rsplit("/", 1)[1] for k in sorted(self._w.links)]
+        return _real_os.listdir(p)
+
     def __getattr__(self, n):
-        import os
-        return getattr(os, n)
+        return getattr(_real_os, n)
 
 
 STALE_BUDGET = 3  # consecutive lock() attempts of one waiter against an untouched stale link that may fail
@@ -213,9 +437,17 @@ def run(sim):
     # inherited lock object; "oserr" = a few intercepted calls fail with a transient OS error instead of being carried out,
     # inside lock() and inside unlock(), and the caller tries again; "altobj" = a holder may release through another
     # FilesystemLock object for the same path (ownership is per process: unlock() refuses only locks "not owned by this process")
+    # "procs" = the process table has more states than running/gone: a process that ends (dying as holder, or exiting after
+    # its last round) may stay unreaped for a few kill() probes, a running process may have ended its initial thread, and the
+    # simulated /proc shows all of that; "names" = a process opens further handles on the lock (isLocked() probes while it
+    # holds and while it does not), and every handle may name the lock by another spelling of its path
     extras = sim.draw_weighted([((), 8), (("forks",), 3), (("oserr",), 4), (("forks", "oserr"), 2), (("altobj",), 1),
-                                (("oserr", "altobj"), 1), (("forks", "oserr", "altobj"), 1)], "extras")
-    forks, oserr, altobj = "forks" in extras, "oserr" in extras, "altobj" in extras
+                                (("oserr", "altobj"), 1), (("forks", "oserr", "altobj"), 1),
+                                (("procs",), 3), (("names",), 3), (("procs", "names"), 1), (("procs", "forks", "oserr"), 1),
+                                (("names", "altobj", "oserr"), 1), (("procs", "names", "forks", "altobj"), 1)], "extras")
+    forks, oserr, altobj, procs, names = ("forks" in extras, "oserr" in extras, "altobj" in extras, "procs" in extras, "names" in extras)
+    if procs and not deaths:
+        deaths = sim.draw_bool(0.6, "procs_deaths")
     # how each process waits for a lock it did not get (always with the SAME lock object): "bounded" = up to 6 attempts
     # per round, then it gives the round up; "persistent" = it keeps calling lock() until it holds the lock;
     # "deferred" = DeferredFilesystemLock.deferUntilLocked() polling once per interval on the process's own simulated
@@ -225,7 +457,11 @@ def run(sim):
     styles = ["bounded"] * nproc
     if deaths:
         styles = [sim.draw_weighted([("bounded", 2), ("persistent", 1), ("deferred", 1)], "style") for _ in range(nproc)]
-    sim.config = {"nproc": nproc, "stale_initial": stale_initial, "deaths": deaths, "rounds": rounds, "forks": forks, "styles": styles, "oserr": oserr, "altobj": altobj}
+    sim.config = {"nproc": nproc, "stale_initial": stale_initial, "deaths": deaths, "rounds": rounds, "forks": forks, "styles": styles, "oserr": oserr, "altobj": altobj,
+                  "procs": procs, "names": names}
+    # every run starts from a freshly executed lockfile module (as a parent that has just imported it and forks the
+    # contenders): whatever the module keeps at module level cannot travel from one run into the next
+    importlib.reload(lockfile)
     sched = T.Scheduler(sim)
     w = World(sim, sched)
     if oserr:
@@ -233,7 +469,8 @@ def run(sim):
     saved = {n: getattr(lockfile, n) for n in ("symlink", "readlink", "rmlink", "kill", "os")}
     lockfile.symlink, lockfile.readlink, lockfile.rmlink, lockfile.kill = w.symlink, w.readlink, w.rmlink, w.kill
     lockfile.os = _OS(w)
-    holders = []
+    lockfile.open = w.open  # the builtin, as far as code of the module is concerned: /proc is the simulated one
+    holders = w.holders
     stats = {"acquired": 0}
     objs = {}        # pid -> the lock object the process used throughout
     stale_fails = {} # pid -> consecutive failed attempts against an untouched stale link
@@ -241,10 +478,54 @@ def run(sim):
     faulted = set()  # pids whose latest lock() attempt was ended by an injected OS error (it does not count for any budget)
 
     def clause(name):
-        # violations that follow a breaker removing a live holder's link are the listed known finding
+        # violations that follow a breaker removing a live holder's link are the known finding, not repaired, listed in
+        # known_findings.json (C50:stale-break-race:*)
         return ("stale-break-race", name) if w.race else (name, "")
 
     nchild = [0]
+
+    def spell():
+        """The name under which a handle is opened."""
+        if not names:
+            return NAME
+        k = sim.draw_int(0, len(SPELLINGS) - 1, "spelling")
+        if k:
+            sim.probe("handle_opened_under_another_spelling")
+        return SPELLINGS[k]
+
+    def ends(pid):
+        """Process pid stops running (death as holder, or exit)."""
+        w.leaves(pid, sim.draw_int(1, 3, "unreaped_for") if procs and sim.draw_bool(0.5, "unreaped") else 0)
+
+    def probe(pid, holding):
+        """Process pid asks isLocked() about the lock through a handle of its own.  Whoever holds keeps holding: the probe
+        may not have taken the lock while ANOTHER process held it (what it does to the asking process's own tenure shows
+        in that holder's next steps: exclusive(), release())."""
+        name = spell()
+        sim.probe("holder_asks_isLocked" if holding else "non_holder_asks_isLocked")
+
+        def ask():
+            try:
+                return not lockfile.isLocked(name)
+            except Exception as e:
+                # no error is ever injected into a probe: either its lock() raised, or it took the lock and then was
+                # the one holder that cannot release
+                c, wit = clause("isLocked-raised")
+                sim.fail(c, wit or type(e).__name__, "isLocked() in process %d raised %r" % (pid, e))
+        w.probing.add(pid)
+        w.created_over.pop(pid, None)
+        try:
+            free = attempt(pid, ask)
+        finally:
+            w.probing.discard(pid)
+        sim.event(pid, "IS-LOCKED", "no" if free else "yes", "holding" if holding else "")
+        if free:
+            over = w.created_over.get(pid)
+            c, wit = clause("mutual-exclusion")
+            sim.check(c, not over, wit or "isLocked-took-the-lock-beside-a-holder",
+                      lambda: "isLocked() in process %d answered False, i.e. its lock() succeeded, while %r held the lock" % (pid, over))
+        if holding:
+            exclusive()
 
     def exclusive():
         c, wit = clause("mutual-exclusion")
@@ -259,7 +540,7 @@ def run(sim):
                 sim.probe("holder_releases_through_another_object")
             w.injected.pop(pid, None)
             try:
-                (lockfile.FilesystemLock(NAME) if other else lk).unlock()
+                (lockfile.FilesystemLock(spell()) if other else lk).unlock()
                 return
             except Exception as e:
                 if isinstance(e, OSError) and w.injected.get(pid):
@@ -294,7 +575,7 @@ def run(sim):
                 release(cpid, inherited)
                 holders.remove(cpid)
                 sim.event(cpid, "RELEASED")
-        w.alive.discard(cpid)
+        ends(cpid)
 
     def attempt(pid, fn):
         """One lock() attempt of process pid (fn calls the real lock(), directly or through a timer); returns its result."""
@@ -335,7 +616,8 @@ def run(sim):
 
     def others_done():
         me = sched.me()
-        return all(t.state == "done" for t in sched.threads if t is not me)
+        # (a dead owner that is not reaped yet cannot be told from a running one: the waiter's own probes get it reaped)
+        return all(t.state == "done" for t in sched.threads if t is not me) and not w.unreaped_owner()
 
     def wait_persistently(pid, lk, style, clk):
         """The waiter does not give up: plain lock() polling or deferUntilLocked() on the waiter's clock.  Bounded liveness:
@@ -378,28 +660,50 @@ def run(sim):
         clk = None
         if style == "deferred":
             clk = SimClock()
-            lk = defer.DeferredFilesystemLock(NAME, scheduler=clk)
+            lk = defer.DeferredFilesystemLock(spell(), scheduler=clk)
             w.oserr_exempt.add(pid)  # its lock() runs from a timer: an OS error there is the reactor's business, not the statement's
         else:
-            lk = lockfile.FilesystemLock(NAME)
+            lk = lockfile.FilesystemLock(spell())
         objs[pid] = lk
+        # the holder need not keep the handle it locked with (unlock() works from any handle of the owning process): such a
+        # process takes the lock through a handle it drops as soon as lock() has answered
+        throwaway = altobj and style == "bounded" and sim.draw_bool(0.4, "throwaway_handles")
+        if procs:
+            w.comm[pid] = sim.draw_choice(COMMS, "comm")
+            if sim.draw_bool(0.4, "initial_thread_ended"):
+                # the process goes on running in its other threads (this one does the locking); /proc shows its leader as Z
+                w.mtx.add(pid)
+                sim.fault("running_process_initial_thread_ended")
         for r in range(nrounds):
             got = False
+            if names and sim.draw_bool(0.3, "probe_idle"):
+                probe(pid, False)
+            clean = None
             if style == "bounded":
                 for _ in range(6):
-                    got = attempt(pid, lk.lock)
+                    h = lockfile.FilesystemLock(spell()) if throwaway else lk
+                    got = attempt(pid, h.lock)
+                    clean = h.clean
+                    h = None
                     if got:
                         break
                     sched.point("retry")
             else:
                 got = wait_persistently(pid, lk, style, clk)
+                clean = lk.clean
             if not got:
                 continue
+            if throwaway:
+                sim.probe("holder_dropped_the_handle_it_locked_with")
             stats["acquired"] += 1
             holders.append(pid)
-            sim.event(pid, "ACQUIRED", "clean" if lk.clean else "unclean")
+            sim.event(pid, "ACQUIRED", "clean" if clean else "unclean")
             exclusive()
             for _ in range(sim.draw_int(0, 2, "cs")):
+                sched.point("critical-section")
+                exclusive()
+            if names and sim.draw_bool(0.4, "probe_holding"):
+                probe(pid, True)
                 sched.point("critical-section")
                 exclusive()
             if forks and sim.draw_bool(0.4, "fork"):
@@ -419,13 +723,23 @@ def run(sim):
                 sim.fault("process_death_holding_lock")
                 sim.event(pid, "DIES")
                 holders.remove(pid)
-                w.alive.discard(pid)
+                ends(pid)
                 return
             release(pid, lk)
             holders.remove(pid)
             sim.event(pid, "RELEASED")
+        if procs and sim.draw_bool(0.4, "exit"):
+            # the process exits after its last round (it does not come back after the run)
+            sim.fault("process_exits_after_last_round")
+            sim.event(pid, "EXITS")
+            ends(pid)
+            return
         finished.append(pid)
 
+    # whatever a lock object does when it is finalised must happen at a point the tape decides (a handle dropped by its
+    # process), never at a moment the cycle collector picks: automatic collection waits until the run is over
+    gc_was_on = gc.isenabled()
+    gc.disable()
     try:
         if stale_initial:
             w.links[NAME] = "99"  # pid 99 is not alive
@@ -448,6 +762,8 @@ def run(sim):
             return
         # liveness once faults stop: nobody alive holds the lock any more, so it is free or stale.
         w.oserr_left = 0
+        for z in sorted(w.zombies):
+            w.reap(z)  # ... and every dead process has been reaped by now
         sim.check("internal-no-holder-left", not holders, "", "holders %r at the end" % (holders,))
         res = {}
 
@@ -471,7 +787,7 @@ def run(sim):
             # (b) a fresh contender with a fresh object
             w.alive.add(500)
             w.known.add(500)
-            lone_turn(500, lockfile.FilesystemLock(NAME), "locked", "", "a lone fresh contender")
+            lone_turn(500, lockfile.FilesystemLock(spell()), "locked", "", "a lone fresh contender")
 
         sched.spawn("late", late, sim.draw_perm(sorted(finished)))
         try:
@@ -485,11 +801,30 @@ def run(sim):
         sched.shutdown()
         for n, v in saved.items():
             setattr(lockfile, n, v)
+        lockfile.__dict__.pop("open", None)
+        # no handle is finalised by the cycle collector in the middle of a run (see gc.disable() above): what is left of this
+        # run is collected between runs, on the real module functions
+        objs.clear()
+        if gc_was_on:
+            gc.enable()
     sim.state((nproc, stale_initial, deaths, min(w.broke_stale, 2), w.race, tuple(sorted(set(styles))), oserr))
     sim.nontrivial = w.eexist > 0 and sim.faults.get("interleave", 0) > 0
 
 
 MUTANTS = [
+    "seeded C50-r6a-unreaped-owner-check (after a successful kill the owner is looked up in /proc/<pid>/stat, state Z/X = gone): missed while the process table knew only running/gone and "
+    "the module's open() reached the host's /proc; caught with family 'procs' (running owner whose initial thread has ended): mutual-exclusion:two-holders, holder-unlock-raised:FileNotFoundError, "
+    "isLocked-raised:FileNotFoundError.  A really dead, unreaped owner's lock is broken by that change without any verdict (allowed)",
+    "seeded C50-r6b-own-pid-leftover-registry (module-level registry of held locks keyed by abspath of the spelling): missed while every handle used one spelling and nobody asked isLocked(); "
+    "caught with family 'names' (holder asks isLocked() under another spelling): holder-unlock-raised:FileNotFoundError, :through-another-object-for-the-path:FileNotFoundError, mutual-exclusion:two-holders",
+    "seeded C50-r5b-del-releases-lock-on-gc: used to be found only through lock objects of EARLIER runs being collected inside a later run (not replayable -> harness error); now the cycle collector "
+    "waits until a run is over and a bounded waiter of the 'altobj' family takes the lock through a throw-away handle: caught in quick (mutual-exclusion:two-holders, holder-unlock-raised:*FileNotFoundError)",
+    "lockfile.py lock(): 'if int(pid) == os.getpid(): raise OSError(ESRCH)' before kill (a link with our own pid is a leftover): caught with 'names' "
+    "(mutual-exclusion:isLocked-took-the-lock-beside-a-holder, :two-holders, holder-unlock-raised:FileNotFoundError)",
+    "lockfile.py lock(): after kill, b'\\tZ ' in open('/proc/<pid>/status','rb').read() -> ESRCH: caught with 'procs' (holder-unlock-raised:FileNotFoundError, isLocked-raised:ValueError, "
+    "lock-raised:FileNotFoundError when the owner is reaped between kill and open)",
+    "lockfile.py lock(): kill(pid, 0) replaced by 'not os.path.exists(\"/proc/<pid>\") -> ESRCH': NOT caught, correctly - /proc/<pid> exists exactly as long as kill succeeds (only the known stale-break race "
+    "shows, under its listed signature; its witness tape shifts by the missing kill hand-over)",
     "seeded C50-enoent-rmlink: caught (mutual-exclusion:two-holders, holder-unlock-raised)",
     "seeded C50-r2-unlock-skips-owner-check: caught (non-holder-unlock-removed-live-link:forked-child)",
     "seeded C50-r3-cached-owner-liveness (lock object remembers an owner it saw running): missed before the objects' history was put under test; "
